@@ -236,6 +236,7 @@ def run(chk):
     model = coq_eval("C11", IMPORTS, exprs)
     n = len(cases)
     distinct = set()
+    hard = []
     for i, c in enumerate(cases):
         mv = canon(parse_term(model[i]))
         iv = canon(impl_t[i])
@@ -256,11 +257,15 @@ def run(chk):
         if verdict[1] != "true":
             at, code = verdict[2][1], verdict[2][2]
             d = first_diff(mv, iv)
-            chk.violation(f"check_C11 rejects the implementation at op #{at}: {WHY.get(code, code)}",
-                          f"{lines[i]}\nC11 oracle check_C11 rejects the implementation's answers at op #{at} "
-                          f"({op_term(c[at]) if at < len(c) else '-'}): {WHY.get(code, code)}\n"
-                          f"implementation view at that op: {show_term(impl_t[i][at]) if at < len(impl_t[i]) else '-'}\n"
-                          f"first model/implementation difference: {d}\n" + desc)
+            vtxt = show_term(impl_t[i][at]) if at < len(impl_t[i]) else '-'
+            # leftovers of an earlier failing case show up as foreign names (999): report the
+            # cases that fail on their own names first
+            hard.append((("999" in vtxt, len(c)),
+                         f"check_C11 rejects the implementation at op #{at}: {WHY.get(code, code)}",
+                         f"{lines[i]}\nC11 oracle check_C11 rejects the implementation's answers at op #{at} "
+                         f"({op_term(c[at]) if at < len(c) else '-'}): {WHY.get(code, code)}\n"
+                         f"implementation view at that op: {vtxt}\n"
+                         f"first model/implementation difference: {d}\n" + desc))
         elif mv != iv:
             chk.coverage["disagreements_checked"] += 1
             d = first_diff(mv, iv)
@@ -270,6 +275,8 @@ def run(chk):
         if len(chk.coverage["samples"]) < 3 and len(c) >= 6 and nev > 2 and i % 7 == 0:
             chk.coverage["samples"].append({"harness_line": lines[i], "last_view_impl": show_term(impl_t[i][-1]),
                                             "last_view_model": model[i][-600:]})
+    for _, what, payload in sorted(hard, key=lambda h: h[0]):
+        chk.violation(what, payload)
     chk.coverage["traces_validated_against_impl"] = n
     chk.coverage["distinct_nontrivial"] = len(distinct)
     chk.coverage["rule"] = ("exhaustive: all op sequences of length %d over a 12-letter alphabet (joins with duplicates, "
